@@ -27,6 +27,8 @@ type ctx struct {
 	defAsserts map[*T]string
 	usesIx bool
 	usesBits bool
+	strExt []*T
+	strExtSeen map[string]bool
 	wrap64 bool // int mode: 64-bit arithmetic wraps (exact) instead of producing overflow obligations
 	facts []symFact // facts about heap symbols (value ranges), rendered when the symbol is used
 }
@@ -842,9 +844,13 @@ func (c *ctx) cmp(op token.Token, x, y *T, t types.Type) *T {
 		}
 	}
 	switch op {
-	case token.EQL:
-		return mkEq(x, y)
-	case token.NEQ:
+	case token.EQL, token.NEQ:
+		if x.sort == "Str" && !same(x, y) {
+			c.strExtInstance(x, y)
+		}
+		if op == token.EQL {
+			return mkEq(x, y)
+		}
 		return mkNot(mkEq(x, y))
 	}
 	_, signed, ok := intInfo(t)
@@ -964,4 +970,33 @@ func (c *ctx) ix(off, k *T) *T {
 	}
 	c.usesIx = true
 	return app("ix", "Int", off, k)
+}
+
+// strExtInstance records an instance of string extensionality for the pair (a, b):
+//   a = b  or  slen(a) != slen(b)  or  the strings differ at index sdiff(a,b).
+// Only recorded for ground terms (no bound variables).
+func (c *ctx) strExtInstance(a, b *T) {
+	at := map[string]bool{}
+	collectAtoms(a, at)
+	collectAtoms(b, at)
+	for n := range at {
+		if strings.Contains(n, "!q") || strings.HasPrefix(n, "k!") {
+			return
+		}
+	}
+	key := a.String() + "|" + b.String()
+	if c.strExtSeen == nil {
+		c.strExtSeen = map[string]bool{}
+	}
+	if c.strExtSeen[key] || len(c.strExt) > 40 {
+		return
+	}
+	c.strExtSeen[key] = true
+	c.d.fun("sdiff", []string{"Str", "Str"}, c.intSort())
+	d := app("sdiff", c.intSort(), a, b)
+	intT := types.Typ[types.Int]
+	la, lb := app("slen", c.intSort(), a), app("slen", c.intSort(), b)
+	fact := mkOr(mkEq(a, b), mkNot(mkEq(la, lb)),
+		mkAnd(c.cmp(token.LEQ, c.I(0), d, intT), c.cmp(token.LSS, d, la, intT), mkNot(mkEq(app("sbyte", c.bvOrInt(8), a, d), app("sbyte", c.bvOrInt(8), b, d)))))
+	c.strExt = append(c.strExt, fact)
 }
